@@ -109,6 +109,16 @@ def run_shards(pid, tier, seed, nshards, watchdog):
         p = subprocess.Popen([sys.executable, "-W", "ignore", "-m", "lcverif.shard", pid, tier, str(seed),
                               str(i), str(nshards), out], cwd=VERIF, env=env, stdout=log, stderr=subprocess.STDOUT)
         procs.append((p, out, log))
+    # one more process repeats the cases of one regular shard (a different one per seed) under `python -O`: assert
+    # statements and `if __debug__:` blocks are stripped there, which is an interpreter mode users do run; the
+    # contracts are installed with enabled=True and stay on
+    i = nshards
+    env["PYTHONHASHSEED"] = "0"
+    out = os.path.join(tmp, "shard%d.pkl" % i)
+    log = open(os.path.join(tmp, "shard%d.log" % i), "wb")
+    p = subprocess.Popen([sys.executable, "-O", "-W", "ignore", "-m", "lcverif.shard", pid, tier, str(seed),
+                          str(seed % nshards), str(nshards), out], cwd=VERIF, env=env, stdout=log, stderr=subprocess.STDOUT)
+    procs.append((p, out, log))
     deadline = time.time() + watchdog
     dumps, problems = [], []
     for i, (p, out, log) in enumerate(procs):
@@ -239,9 +249,10 @@ def replay(mod, pid, path):
     with open(path) as fh:
         rec = json.load(fh)
     want_hs = str((rec.get("env") or {}).get("PYTHONHASHSEED", os.environ.get("PYTHONHASHSEED", "0")))
-    if os.environ.get("PYTHONHASHSEED", "0") != want_hs and os.environ.get("LCVERIF_REEXEC") != "1":
+    want_opt = int((rec.get("env") or {}).get("python_optimize", 0) or 0)
+    if (os.environ.get("PYTHONHASHSEED", "0") != want_hs or int(sys.flags.optimize) != want_opt) and os.environ.get("LCVERIF_REEXEC") != "1":
         env = dict(os.environ, PYTHONHASHSEED=want_hs, LCVERIF_REEXEC="1")
-        return subprocess.call([sys.executable, "-W", "ignore", "-m", "lcverif.runner", pid, "--replay", path], env=env)
+        return subprocess.call([sys.executable] + (["-O"] if want_opt else []) + ["-W", "ignore", "-m", "lcverif.runner", pid, "--replay", path], env=env)
     case = rec["case"] if "case" in rec and "facet" in rec else rec
     S = sutmod.load()
     if hasattr(mod, "setup"):
